@@ -545,3 +545,14 @@ package keeper
 //@   flag havoc=IterateDelegationsForStaker,SetAssociatedOperator
 //@   before[C09.aows.checked] IterateDelegationsForStaker requires res_GetAssociatedOperator_0 == "" && res_GetAssociatedOperator_1 == nil
 //@   before[C09.aows.checked] SetAssociatedOperator requires res_GetAssociatedOperator_0 == "" && res_GetAssociatedOperator_1 == nil
+
+// C18 (the exported document holds every collection of the module's store): each field of the exported state is what the
+// accessor of its own collection returned. (The two undelegation indexes are rebuilt from the records on import; the
+// hold counts are re-placed by the module that holds - x/dogfood InitGenesis.)
+//@ func (Keeper).ExportGenesis
+//@   flag noframe
+//@   flag pure=GetAllAssociations,AllDelegationStates,AllStakerList,AllUndelegations,Wrap,Error
+//@   ensures[C18.dxg.assoc]   defined(res_GetAllAssociations_0) && r0.Associations == res_GetAllAssociations_0
+//@   ensures[C18.dxg.states]  defined(res_AllDelegationStates_0) && r0.DelegationStates == res_AllDelegationStates_0
+//@   ensures[C18.dxg.stakers] defined(res_AllStakerList_0) && r0.StakersByOperator == res_AllStakerList_0
+//@   ensures[C18.dxg.undel]   defined(res_AllUndelegations_0) && r0.Undelegations == res_AllUndelegations_0
